@@ -66,9 +66,23 @@ class ScriptedServer(object):
 
     # ---- io helpers
     def _readline(self):
+        idle = self.script.get('idle_421')
         while b'\n' not in self.buf:
             try:
-                d = self.sock.recv(4096)
+                if idle and self.conn.cur is None:
+                    # server-side idle timeout: unsolicited 421, then close
+                    with gevent.Timeout(idle, False):
+                        d = self.sock.recv(4096)
+                        idle = None
+                    if idle:
+                        self.world.fault('server-idle-421')
+                        self.world.log('IDLE421', self.label)
+                        self._send(b'421 4.4.2 idle too long, closing\r\n')
+                        self.conn.closed_by = 'idle'
+                        return None
+                    idle = self.script.get('idle_421')
+                else:
+                    d = self.sock.recv(4096)
             except OSError:
                 return None
             if not d:
@@ -237,6 +251,8 @@ class ScriptedServer(object):
                 code = self._do('mail', act)
                 if code is None:
                     return
+                if code[0] != '2':
+                    c.commands.append((w.loop._now, b'*FAILED', b'mail'))
                 if code[0] == '2':
                     c.cur = {'mail': arg, 'tag': self.tag, 'rcpts': [],
                              'all_rcpts': [],
@@ -256,9 +272,14 @@ class ScriptedServer(object):
                         c.cur['rcpts'].append(addr)
             elif verb == b'DATA':
                 act = self.action('data')
+                if not act and (c.cur is None or not c.cur['rcpts']):
+                    # like a real server: no valid recipients, no data
+                    act = {'code': '554', 'text': 'no valid recipients'}
                 code = self._do('data', act)
                 if code is None:
                     return
+                if code != '354':
+                    c.commands.append((w.loop._now, b'*FAILED', b'data'))
                 if code == '354':
                     content = self._read_content()
                     if content is None:
@@ -281,6 +302,10 @@ class ScriptedServer(object):
                     if c.cur is not None:
                         c.cur['eod'] = codes
                         c.cur['done'] = True
+                    c.commands.append((
+                        w.loop._now, b'*DONE' if any(
+                            x[0] == '2' for x in codes) else b'*FAILED',
+                        b'eod'))
                     c.cur = None
             elif verb == b'RSET':
                 if self._do('rset', self.action('rset')) is None:
